@@ -30,6 +30,7 @@ pub fn fuzz_one(id: &str, data: &[u8]) -> Option<(String, String)> {
         "C03" => go(bytes::case_c03(data), &props::c03::check),
         "C04" => go(bytes::case_c04(data), &props::c04::check),
         "C05" => go(bytes::case_c05(data), &props::c05::check),
+        "C09" => go(bytes::case_c09(data), &props::c09::check),
         "C16" => go(bytes::case_c16(data), &props::c16::check),
         "C17" => go(bytes::case_c17(data), &props::c17::check),
         _ => None,
